@@ -10,6 +10,7 @@ SALT/SEAL/HEADER  specific sinks: the Argon2 salt operand, the sealed-box epheme
            push-stream header are RNG-written on every path before they are used.
 """
 from ..core import operand_locals, def_sites
+from ..expr import expr_of_operand, deep_repr
 from ..engines import must_pass, views_of, RESLICE
 from . import common as cm
 
@@ -162,21 +163,33 @@ def check(ctx, rep, cfg):
                 if a.get("k") in ("copy", "move") and not a["p"] and g.locals[a["l"]].get("k") == "closure":
                     return True
         return False
+    # "may draw": the RNG is reachable along *feasible* edges of the view (a helper `new_keypair(seed:
+    # Option<..>)` folded into `seed_keypair` with `Some(seed)` has its random arm pruned: the seeded
+    # entry point does not draw although the plain call graph says it could)
+    live_callees = {}
+    prim_callers = set()
     for g in prog.fns:
         if g.kind == "closure" or not (g.key in plain or passes_callable(g)):
             continue
-        for c in view(g.key).calls():
+        v = view(g.key)
+        live = v.live_blocks
+        ks = set()
+        for c in v.calls():
+            if c.bb not in live:
+                continue
+            if is_rng_prim(c):
+                prim_callers.add(g.key)
             for t in prog.callee_fns(c):
-                rev.setdefault(t.key, set()).add(g.key)
-    reach_any = set(srcs)
-    stack = list(srcs)
-    while stack:
-        k = stack.pop()
-        for c in set(rev.get(k, ())) | set(prog._callers.get(k, ()) if prog._callers else ()):
-            if c not in reach_any:
-                reach_any.add(c)
-                stack.append(c)
-    reach_any |= cm.can_reach(prog, [prog.by_key[k] for k in srcs])
+                ks.add(t.key)
+        live_callees[g.key] = ks
+    reach_any = set(srcs) | prim_callers
+    grew = True
+    while grew:
+        grew = False
+        for k, ks in live_callees.items():
+            if k not in reach_any and ks & reach_any:
+                reach_any.add(k)
+                grew = True
     changed = True
     while changed:
         changed = False
@@ -184,7 +197,7 @@ def check(ctx, rep, cfg):
             if k in always:
                 continue
             f = view(k)
-            blocks = [c.bb for c in f.calls() if any(t.key in always for t in prog.callee_fns(c)) or is_rng_prim(c)]
+            blocks = [c.bb for c in f.calls() if c.bb in f.live_blocks and (any(t.key in always for t in prog.callee_fns(c)) or is_rng_prim(c))]
             if not blocks:
                 continue
             rets = [b for b in range(f.n) if f.blocks[b]["t"]["k"] == "return"]
@@ -249,7 +262,61 @@ def check(ctx, rep, cfg):
             if not tg or not all(t.key in srcs for t in tg):
                 continue
             random_out(rep, prog, f, c, tag)
+    random_len(rep, prog, tag)
     sinks(rep, prog, always, srcs, tag)
+
+
+VEC_LEN0 = ("std::vec::Vec::<T>::new", "std::vec::Vec::<T>::with_capacity", "std::default::Default::default")
+VEC_CHANGERS = ("resize", "truncate", "push", "clear", "extend_from_slice", "pop", "extend", "insert", "remove", "drain", "split_off", "set_len")
+
+
+def random_len(rep, prog, tag):
+    """RANDOM-LEN: `NewByteArray<LENGTH>::gen()` (public trait) hands back LENGTH random bytes: the
+    container it fills and returns is fixed-size by type, or a Vec created with LENGTH elements and not
+    re-sized before it is returned (a Vec created empty gives the RNG nothing to fill)."""
+    from ..inline import inline
+    from ..lenck import array_len_of_ty, container_len_of_ty
+    n = 0
+    for imp in prog.impls:
+        if not (imp.get("trait") or "").startswith("types::NewByteArray"):
+            continue
+        for it in imp["items"]:
+            if it["name"] != "gen":
+                continue
+            g = prog.by_key.get(it["key"])
+            if g is None:
+                continue
+            v = inline(prog, g, pick=lambda call, t: t.kind != "closure" and t.file == g.file and t.n <= 16 and not t.path.startswith("rng::"))
+            rty = v.locals[0]
+            st = imp["self_ty"]["t"]
+            inst = "<%s as NewByteArray>::gen|returns LENGTH random bytes%s" % (st, tag)
+            if array_len_of_ty(rty) is not None or container_len_of_ty(rty) is not None or "; LENGTH]" in rty.get("t", "") or "<LENGTH>" in rty.get("t", ""):
+                n += 1
+                rep.ob("RANDOM-LEN", inst, True, "the returned container `%s` has LENGTH bytes by type" % rty.get("t", "")[:60], loc=g.loc())
+                continue
+            if "Vec<u8>" not in rty.get("t", ""):
+                continue        # other containers: not decided here
+            n += 1
+            root = cm.view_info(v, 0)[0]
+            ds = def_sites(v, root)
+            made = None
+            for b, kind, payload in ds:
+                if kind == "call":
+                    c = payload
+                    if c.path == "std::vec::from_elem" and len(c.args) == 2:
+                        e = expr_of_operand(v, c.args[1])
+                        made = "LENGTH" if (e.k == "const" and e.a is None and str(e.b) == "LENGTH") else deep_repr(e)[:40]
+                    elif c.path in VEC_LEN0 or c.name in ("new", "with_capacity", "default", "new_bytes"):
+                        made = "0"
+                    else:
+                        made = "?%s" % c.path.split("::")[-1]
+            changed = [c.loc() for c in v.calls() if c.name in VEC_CHANGERS and c.args and c.args[0].get("k") in ("copy", "move")
+                       and cm.view_info(v, c.args[0]["l"])[0] == root and not v.blocks[c.bb]["cleanup"]]
+            ok = len(ds) == 1 and made == "LENGTH" and not changed
+            rep.ob("RANDOM-LEN", inst, ok,
+                   "the returned Vec is created with %s element(s)%s" % (made, "" if not changed else " and re-sized at %s" % changed[:2]),
+                   loc=g.loc())
+    rep.floor("NewByteArray::gen impls" + tag, n, 3)
 
 
 def is_trait_impl_pub(prog, f):
